@@ -57,6 +57,9 @@ CHECKS = {
  'C18': dict(level='model_checking', technique='symbolic execution (z3) of PbnWriter.write_board_result followed by the real PbnParser (sre-semantics regex model) on the written text with symbolic characters; one symbolic board result inside sequences of 1..3',
              text='The real writer is executed on a symbolic result (dealer, vulnerability, board number, passed out or contract text, declarer, result, two free-text fields over the property alphabet incl. adjacent spaces) and its text is parsed by the real parser: one game per result in order, exactly the fifteen tags with the written values (All / empty / Pass conventions), board settings recovered, all lines <= 255.',
              note='Deal-line hand codec and str(contract) are replaced by their contracts (C14, C15). write_line splitting of over-long strings is outside (excluded by the property).', ref='§4 C18'),
+ 'C17': dict(level='model_checking', replay_py='python3-vt', technique='symbolic execution (z3): JsonBoardSettingWriter -> schema -> JsonParser on a symbolic board; PBN import files rendered from layouts with symbolic content and parsed by the real PbnParser (sre-semantics regex model)',
+             text='JSON: as C12 for board settings (0..3 boards, one symbolic incl. dda). PBN: for each layout (blank-line runs incl. blank/tab lines, LF/CRLF, tag order, additional tags, % headers, table rows) a symbolic board (dealer, vulnerability in all seven accepted spellings, first seat, id of symbolic characters incl. adjacent spaces) is read back by the real parser with the same deal, dealer, vulnerability and id, one board per game in order.',
+             note='Layouts are a finite list (4 fixed + seeded); the content inside a layout is symbolic. PBN comments are not generated. Deal-line hand codec by contract (C14).', ref='§4 C17'),
 }
 
 
